@@ -47,7 +47,7 @@ LIBCALLS = {
 
 
 def plan(tier):
-    return {"runs": 6000} if tier == "quick" else {"runs": 10000000, "budget": 900.0}
+    return {"runs": 6000} if tier == "quick" else {"runs": 150000, "budget": 900.0}
 
 
 # ---------------------------------------------------------------------------------------------------------------
